@@ -103,7 +103,7 @@ func ParseAddressList(addresses string) string {
 	}
 
 	// Simple parser - split by comma
-	addrs := strings.Split(addresses, ",")
+	addrs := splitAddressList(addresses)
 	var addrStructs []string
 
 	for _, addr := range addrs {
@@ -153,4 +153,28 @@ func ParseAddressList(addresses string) string {
 	}
 
 	return "(" + strings.Join(addrStructs, " ") + ")"
+}
+
+// splitAddressList splits an address header at the commas that separate addresses: a comma inside a quoted display
+// name ("Doe, John" <jd@example.org>) or inside the angle brackets does not
+func splitAddressList(addresses string) []string {
+	var out []string
+	start := 0
+	inQuotes, inAngle := false, false
+	for i := 0; i < len(addresses); i++ {
+		switch c := addresses[i]; {
+		case c == '\\' && inQuotes:
+			i++ // the next octet is quoted
+		case c == '"':
+			inQuotes = !inQuotes
+		case c == '<' && !inQuotes:
+			inAngle = true
+		case c == '>' && !inQuotes:
+			inAngle = false
+		case c == ',' && !inQuotes && !inAngle:
+			out = append(out, addresses[start:i])
+			start = i + 1
+		}
+	}
+	return append(out, addresses[start:])
 }
